@@ -264,7 +264,7 @@ H = Harness(
 
 # ------------------------------------------------------------------------------ S-crash
 def crash_params(tier):
-    return [P("nested", 0, 1), P("when", 0, 2), P("others", 0, 1)] + [P(f"s{i}", 0, 3) for i in range(4 if tier == "quick" else 7)]
+    return [P("nested", 0, 1), P("when", 0, 4), P("others", 0, 1)] + [P(f"s{i}", 0, 3) for i in range(4 if tier == "quick" else 7)]
 
 
 @guard
@@ -272,16 +272,27 @@ def crash_fn(a, tier):
     from .common import Tape
 
     S = 4 if tier == "quick" else 7
-    nested, when, others = pick(a["nested"], 2), pick(a["when"], 3), pick(a["others"], 2)
+    # when 0-2: crashes by itself after that many checkpoints; 3: fails while shutting down after having been cancelled at teardown
+    # ('cancel'); 4: the same after its teardown callable raised (fallback to cancellation)
+    nested, when, others = pick(a["nested"], 2), pick(a["when"], 5), pick(a["others"], 2)
     tape = Tape([a[f"s{i}"] for i in range(S)])
     log = []
     boom = BodyErr("service crashed")
 
     async def crasher():
+        if when >= 3:
+            try:
+                await anyio.sleep_forever()
+            except symsched.Cancelled:
+                log.append("crash")
+                raise boom  # e.g. a flush that fails during shutdown
         for _ in range(when):
             await anyio.sleep(0)
         log.append("crash")
         raise boom
+
+    def failing_action():
+        raise CbErr("cannot ask the task to stop")
 
     async def steady():
         try:
@@ -294,7 +305,7 @@ def crash_fn(a, tier):
             ctx.add_resource(object(), "r", [RT[0]], teardown_callback=lambda: log.append("res_td"))
             if others:
                 await start_service_task(steady, "steady")
-            await start_service_task(crasher, "crasher")
+            await start_service_task(crasher, "crasher", teardown_action=failing_action if when == 4 else "cancel")
             for _ in range(6):
                 await anyio.sleep(0)
             log.append("body_done")
@@ -307,7 +318,7 @@ def crash_fn(a, tier):
             await block()
 
     _, exc, k = run(main, chooser=tape)
-    summary = {"context": "nested" if nested else "root", "crash_after_checkpoints": when, "another_service_running": bool(others), "schedule": tape.taken}
+    summary = {"context": "nested" if nested else "root", "crash": f"after {when} checkpoints" if when < 3 else "while shutting down after being cancelled at teardown" + (" (its teardown callable raised)" if when == 4 else ""), "another_service_running": bool(others), "schedule": tape.taken}
     if "crash" not in log:
         # under this schedule the task was stopped by its finalizer before it got to raise
         return OK(summary, nontrivial=False) if exc is None else FAIL("crash:exception-without-a-crash", repr(exc), summary)
@@ -333,11 +344,123 @@ CRASH = Harness(
     params=crash_params,
     cube=lambda tier: 3,
     title="an exception escaping a service task takes the application down instead of vanishing",
-    bound_text=lambda tier: f"service task raising after 0-2 checkpoints; another service running or not; root/nested; first {4 if tier == 'quick' else 7} decisions arbitrary",
+    bound_text=lambda tier: f"service task raising after 0-2 checkpoints, or while it shuts down after having been cancelled by its finalizer (teardown_action 'cancel', or a callable that raises); another service running or not; root/nested; first {4 if tier == 'quick' else 7} decisions arbitrary",
     oracle="the exception leaves the root `async with` (as itself for the root context); resource teardown callback and the other service's "
     "finalizer still run; no task alive once the root block is left",
     outside="several crashing tasks",
     stubs=STUBS_COMMON,
 )
 
-HARNESSES = [H, CRASH]
+
+# ------------------------------------------------------------------------------ S-sibling
+def sib_params(tier):
+    L = 8 if tier == "quick" else 12
+    return [P("pre", 0, 2), P("bdelay", 0, 3), P("startfail", 0, 1), P("act", 0, 1), P("nested", 0, 1), P("gap0", 0, L), P("arm0", 0, 3)]
+
+
+@guard
+def sib_fn(a, tier):
+    L = 8 if tier == "quick" else 12
+    pre, bdelay = pick(a["pre"], 3), pick(a["bdelay"], 4)
+    startfail, act, nested = pick(a["startfail"], 2), pick(a["act"], 2), pick(a["nested"], 2)
+    tape = DeviationTape([(a["gap0"], a["arm0"])], L)
+    log, info = [], {"calls": 0}
+    boom = BodyErr("service start-up failed")
+
+    async def block():
+        async with Context():
+            stop = anyio.Event()
+
+            async def svc(*, task_status):
+                log.append("task_begin")
+                info["snapshot"] = sorted(get_resources(RT[0]))
+                try:
+                    for _ in range(pre):
+                        await anyio.sleep(0)
+                    if startfail:
+                        raise boom
+                    task_status.started()
+                    log.append("task_started")
+                    await stop.wait()
+                    await anyio.sleep(0)
+                finally:
+                    log.append("task_end")
+
+            def action():
+                info["calls"] += 1
+                log.append("action_called")
+                stop.set()
+
+            async def starter():
+                try:
+                    await start_service_task(svc, "svc", teardown_action=action if act else "cancel")
+                    log.append("svc_registered")
+                except BodyErr as e:
+                    log.append("start_failed" if e is boom else "start_failed_with_another_exception")
+
+            async def sibling():
+                for _ in range(bdelay):
+                    await anyio.sleep(0)
+                add_resource(object(), "db", [RT[0]], teardown_callback=lambda: log.append("res_td"))
+                log.append("res_registered")
+
+            async with anyio.create_task_group() as tg:
+                tg.start_soon(starter)
+                tg.start_soon(sibling)
+            log.append("leaving")
+        log.append("left")
+
+    async def main():
+        if nested:
+            async with Context():
+                await block()
+        else:
+            await block()
+
+    _, exc, k = run(main, chooser=tape)
+    summary = {"service_checkpoints_before_started": pre, "sibling_registers_its_resource_after_checkpoints": bdelay, "service_startup_fails": bool(startfail),
+               "teardown_action": ["'cancel'", "sync callable"][act], "context": "nested" if nested else "root", "schedule": tape.taken}
+    if exc is not None:
+        return FAIL(f"sibling:raised:{type(flatten(exc)[0]).__name__}", f"{exc!r} log={log}", summary)
+    pos = {e: i for i, e in enumerate(log)}
+    if "left" not in pos or "res_td" not in pos or pos["res_td"] < pos["leaving"]:
+        return FAIL("sibling:resource-teardown-missing-or-early", log, summary)
+    if startfail:
+        if "start_failed" not in pos:
+            return FAIL("sibling:start-failure-not-reported-to-the-caller", log, summary)
+        if info["calls"]:
+            return FAIL("sibling:teardown-action-invoked-for-a-task-that-never-started", log, summary)
+        if k.live_tasks():
+            return FAIL("sibling:task-alive", [t.name for t in k.live_tasks()], summary)
+        return OK(summary, True)
+    if "svc_registered" not in pos or "task_end" not in pos or pos["task_end"] > pos["left"] or pos["task_end"] < pos["leaving"]:
+        return FAIL("sibling:task-not-stopped-at-teardown", log, summary)
+    before = pos["res_registered"] < pos["svc_registered"]
+    if before and pos["res_td"] < pos["task_end"]:
+        return FAIL("sibling:resource-registered-before-the-start-completed-torn-down-under-the-running-task", log, summary)
+    if not before and pos["res_td"] > pos["task_end"]:
+        return FAIL("sibling:resource-registered-after-the-task-started-outlived-it", log, summary)
+    if info["calls"] != act:
+        return FAIL(f"sibling:teardown-action-called-{info['calls']}-times", log, summary)
+    if k.live_tasks():
+        return FAIL("sibling:task-alive", [t.name for t in k.live_tasks()], summary)
+    return OK(summary, True)
+
+
+SIB = Harness(
+    prop="C08",
+    name="S-sibling",
+    fn=sib_fn,
+    params=sib_params,
+    cube=lambda tier: 4,
+    title="a sibling task registers a resource while start_service_task() is still waiting for the task's start-up",
+    bound_text=lambda tier: "service with 0-2 checkpoints before task_status.started(), start-up succeeding or raising; a sibling task adds a resource with a teardown "
+    "callback to the same context after 0-3 checkpoints; teardown_action 'cancel' / sync callable; root / nested owner; FIFO schedule with one deviation within the "
+    f"first {8 if tier == 'quick' else 12} decisions",
+    oracle="the task is stopped at teardown; a resource registered before start_service_task() returned is torn down only after the task has ended, one registered "
+    "afterwards before; the callable runs exactly once - and never for a task whose start-up failed; the start-up failure reaches the caller; nothing alive afterwards",
+    outside="several services starting at once",
+    stubs=STUBS_COMMON,
+)
+
+HARNESSES = [H, CRASH, SIB]
